@@ -82,7 +82,12 @@ def model_check(ctx: Ctx, spec: str, cfg: str, vacuity_ignore=(), **kw) -> dict:
     ctx.states += res["distinct"]
     ctx.transitions += res["generated"]
     # vacuity: every action of the spec's Next must have been taken at least once
-    zero = [name for (name, cnt, _d) in res.get("coverage", []) if cnt == 0 and name not in ("Init",) and name not in vacuity_ignore]
+    # with -coverage 1 TLC also prints an interim dump every minute, in which actions deeper than the current BFS level
+    # still show 0: only the LAST count printed for an action is its final one
+    last = {}
+    for (name, cnt, _d) in res.get("coverage", []):
+        last[name] = cnt
+    zero = [name for name, cnt in last.items() if cnt == 0 and name not in ("Init",) and name not in vacuity_ignore]
     if zero:
         raise MachineryError(f"vacuous model: actions never taken in {spec}/{cfg}: {sorted(set(zero))}")
     return res
